@@ -11,6 +11,7 @@ package main
 
 import (
 	"fmt"
+	"go/token"
 	"go/types"
 	"sort"
 
@@ -196,6 +197,7 @@ func checkC13(c *Ctx) {
 
 	// ---- R3: crypt arms
 	c13Crypt(c, crypt, up, down)
+	c13Counter(c)
 }
 
 // c13Crypt: per path of one loop iteration, [up, keystream add, down] and what down absorbs.
@@ -322,5 +324,81 @@ func c13Crypt(c *Ctx, crypt, up, down *ssa.Function) {
 		fs.report(c, "C13.R3", name, []string{"arms"}, P.Pos(crypt.Pos()), fmt.Sprintf("%d encrypting and %d decrypting single-block paths: up, add, down; plaintext absorbed", nEnc, nDec))
 		c.Floor("C13.R3", "encrypting single-block paths of crypt", nEnc, 1)
 		c.Floor("C13.R3", "decrypting single-block paths of crypt", nDec, 1)
+	}
+}
+
+// c13Counter (C13.R4): the counter trickles in. The specification absorbs the key block at the absorb rate
+// and then the counter with block length 1, one duplexing call per byte (AbsorbAny(counter, 1, 0x00)):
+// that is what makes an incremented counter cost one permutation. The rule looks at absorbKey: the
+// call that is handed (a slice of) the counter parameter must split it into blocks of one byte — the
+// block-length operand is the constant 1, or the data handed over is a one-byte slice. Absorbing the
+// counter at the absorb rate yields a state no other Cyclist implementation reaches, while two peers
+// running the same code still agree, and nothing in the tree passes a counter longer than one byte.
+func c13Counter(c *Ctx) {
+	P := c.P
+	const rule = "C13.R4"
+	c.Rule(rule, "the counter trickles in: in absorbKey the call that absorbs the counter parameter splits it into one-byte blocks (block-length operand constant 1, or a one-byte slice per call), while the key block uses the absorb rate (the specification's AbsorbAny(counter, 1, 0x00); at the absorb rate every keyed initialisation with a counter of two or more bytes leaves the specified state) (def-use of the block-length operand)")
+	fn := P.Func("cyclist", "(*Cyclist).absorbKey")
+	if fn == nil || len(fn.Params) != 4 {
+		c.Undecided(rule, "cyclist.(*Cyclist).absorbKey", "function not found or its parameters are not (receiver, key, id, counter)")
+		return
+	}
+	name := FuncName(fn)
+	c.Analysed(name)
+	counter := fn.Params[3]
+	n := 0
+	eachInstr(fn, func(ins ssa.Instruction) {
+		call, ok := ins.(*ssa.Call)
+		if !ok {
+			return
+		}
+		g := staticCallee(&call.Call)
+		if g == nil || !InModule(g) {
+			return
+		}
+		dataIdx := -1
+		for k, a := range call.Call.Args {
+			if isByteSlice(a.Type()) {
+				root, _ := accessPath(a)
+				if lookThrough(root) == ssa.Value(counter) || sliceRootParam(fn, a, 3, 0) {
+					dataIdx = k
+				}
+			}
+		}
+		if dataIdx < 0 {
+			return
+		}
+		n++
+		cons := fmt.Sprintf("%s#counter-blocks%d", name, n)
+		okv := false
+		// a one-byte slice handed over per call
+		if sl, isSl := strip(call.Call.Args[dataIdx]).(*ssa.Slice); isSl && sl.High != nil {
+			if lo, hi := sl.Low, sl.High; lo != nil {
+				if b, isB := hi.(*ssa.BinOp); isB && b.Op == token.ADD {
+					if k, isC := constInt(b.Y); isC && k == 1 && b.X == lo {
+						okv = true
+					}
+				}
+			}
+		}
+		// or: an integer operand that is the constant 1 (the block length)
+		for k, a := range call.Call.Args {
+			if k == dataIdx {
+				continue
+			}
+			if _, _, isInt := typeRange(a.Type()); !isInt {
+				continue
+			}
+			if bt, isBasic := a.Type().Underlying().(*types.Basic); isBasic && bt.Kind() == types.Uint8 {
+				continue // the domain byte
+			}
+			if v, isC := constInt(a); isC && v == 1 {
+				okv = true
+			}
+		}
+		c.Check(okv, rule, cons, P.InstrPos(call), "counter absorbed in one-byte blocks", "the counter is not absorbed in blocks of one byte (no block-length operand equal to the constant 1 and no one-byte slice per call): a keyed initialisation with a counter of two or more bytes reaches a state that the Cyclist specification does not")
+	})
+	if n == 0 {
+		c.Undecided(rule, name+"#counter-blocks", "no call in absorbKey receives the counter parameter")
 	}
 }
